@@ -19,11 +19,11 @@ HARNESSES = [
       bounds='index::shape_matmul on static_vector<size_t,4> shapes: both dims 1..4 and all extents 1..MAXE symbolic (every batch-broadcast pattern, 1-d promotion on either side, contraction mismatch)',
       quick=[{'MAXE': 4}], thorough=[{'MAXE': 6}]),
  dict(name='matmul_el', src='harnesses/C16.c', func='h_matmul_el', kernels=['C16_matmul'], unwind=6, bounds='view::matmul (v1, slicing implementation), hybrid operands; ' + EL,
-      quick=[_sh((1, 3), (3, 1)), _sh((2, 3), (3, 2)), _sh((2, 1, 2), (2, 2))],
+      quick=[_sh((1, 3), (3, 1)), _sh((2, 3), (3, 2)), _sh((2, 1, 2), (2, 2)), _sh((1, 2, 2), (2, 2, 1))],
       thorough=[_sh((a, k), (k, b)) for a in (1, 2, 3) for k in (1, 2, 3) for b in (1, 2, 3)] + [_sh((2, 1, 2), (1, 2, 2)), _sh((1, 2, 2), (2, 2, 1)), _sh((2, 2), (2, 2, 2))]),
- dict(name='matmulv2_el', src='harnesses/C16.c', func='h_matmul_el', kernels=['C16_matmulv2'], unwind=6, optional=True, timeout=600, mem_gb=8,
+ dict(name='matmulv2_el', src='harnesses/C16.c', func='h_matmul_el', kernels=['C16_matmulv2'], unwind=6, optional=True, timeout=900, mem_gb=10,
       bounds='view::matmulv2 (tile/reshape/transpose/multiply/sum pipeline), hybrid operands, the only implementation that compiles for rank-1 operands; ' + EL,
-      quick=[], thorough=[_sh((2,), (2, 1), V2=1), _sh((2,), (2, 1), V2=1, _backend='kissat'), _sh((2,), (2, 1), V2=1, _backend='cadical'), _sh((1, 2), (2,), V2=1), _sh((1, 2), (2, 1), V2=1)]),
+      quick=[], thorough=[_sh((2,), (2, 1), V2=1), _sh((1, 2), (2,), V2=1), _sh((1, 2), (2, 1), V2=1), _sh((2,), (2, 2), V2=1)]),   # kissat: out of memory (11.5 GB); cadical: no verdict in 600 s
 ]
 
 
@@ -36,14 +36,58 @@ def _o(routine, func, shapes_quick, shapes_thorough, what, **kw):
 
 HARNESSES += [
  _o('outer', 'h_outer', [((2,), (3,)), ((2, 2), (2,))], [((3,), (3,)), ((2, 2), (3,)), ((2,), (2, 2))], 'out[i,j] = a.flat[i]*b.flat[j]'),
- _o('vecdot', 'h_vecdot', [((3,), (3,)), ((2, 3), (2, 3)), ((2, 3), (3,))], [((2, 3), (1, 3)), ((1, 2), (3, 2))], 'sum over the last axis of the broadcast product'),
  _o('trace', 'h_trace', [((2, 3), None), ((2, 2, 2), None)], [((3, 3), None), ((3, 2), None), ((2, 3, 2), None)], 'offset 0, axes (0,1)'),
- _o('dot', 'h_dotlike', [((3,), (3,)), ((2, 2), (2,)), ((2, 2), (2, 2))], [((2, 3), (3, 2)), ((2, 3), (3,))], 'np.dot'),
- _o('inner', 'h_dotlike', [((3,), (3,)), ((2, 2), (2,)), ((2, 2), (2, 2))], [((2, 3), (2, 3)), ((2, 3), (3,))], 'np.inner'),
  _o('kron', 'h_kron', [((2,), (2,)), ((2, 1), (1, 2))], [((2,), (3,)), ((2, 2), (2, 2))], 'np.kron of same-dim operands'),
- _o('tensordot', 'h_tensordot', [((2,), (2,), {'AXES': 1}), ((2, 2), (2, 2), {'AXES': 1}), ((2, 2), (2, 2), {'AXES': 2})], [((2, 3), (3, 2), {'AXES': 1}), ((2, 3), (2, 3), {'AXES': 2})],
-    'integer axes (compile-time constant 1 or default 2)', unwind=18),
+ # measured (machine loaded 2-3x): 1-d x 1-d 30 s; (2,3)x(3,) 214 s / 3.8 GB; (2,3)x(2,3) out of memory at 5.3 GB in 65 s
+ _o('vecdot', 'h_vecdot', [((3,), (3,))], [((2, 3), (3,)), ((2, 3), (2, 3)), ((2, 3), (1, 3))], 'sum over the last axis of the broadcast product', mem_gb=12),
+ # measured: 1-d 22 s; (2,2)x(2,) 126 s / 3.9 GB; (2,2)x(2,2) no verdict in 300 s
+ _o('dot', 'h_dotlike', [((3,), (3,))], [((2, 2), (2,)), ((2, 2), (2, 2)), ((2, 3), (3,))], 'np.dot', mem_gb=12),
+ # measured: 1-d 39 s; (2,2)x(2,) 251 s / 4.0 GB; (2,2)x(2,2) no verdict in 300 s
+ _o('inner', 'h_dotlike', [((3,), (3,))], [((2, 2), (2,)), ((2, 2), (2, 2)), ((2, 3), (3,))], 'np.inner', mem_gb=12),
+ # measured: 1-d axes=1 40 s; (2,2)x(2,2) axes=2 37-48 s; (2,2)x(2,2) axes=1 no verdict in 300 s
+ _o('tensordot', 'h_tensordot', [((2,), (2,), {'AXES': 1}), ((2, 2), (2, 2), {'AXES': 2})], [((2, 2), (2, 2), {'AXES': 1}), ((2, 3), (2, 3), {'AXES': 2})],
+    'integer axes (compile-time constant 1 or default 2)', unwind=18, mem_gb=12),
 ]
-OUTSIDE = []
-ASSUMPTIONS = []
-CLAIM = dict(text='', note='')
+
+
+def _s(routine, func, dims, what, **kw):
+    """result SHAPE with symbolic extents (dims are per-query constants), through the real view composition, no element read"""
+    R = 'R_' + routine.upper()
+    cfgs = []
+    for d in dims:
+        c = {'NA': d[0], R: 1, 'SYMSHAPE': 1, 'MAXE': 4, '_unwindset': ['k_fill_u8.0:18', 'k_fill_u8.1:18']}
+        if d[1] is not None: c['NB'] = d[1]
+        if len(d) > 2: c.update(d[2])
+        cfgs.append(c)
+    return dict(name=routine + '_shape', src='harnesses/C16_other.c', func=func, kernels=['C16_' + routine], unwind=kw.pop('unwind', 6),
+                bounds='shape of view::%s with SYMBOLIC extents 1..4 (operand dims are per-query constants, <= 16 cells each), contracted extents agreeing; %s' % (routine, what), quick=cfgs, thorough=cfgs, **kw)
+
+
+HARNESSES += [
+ _s('outer', 'h_outer', [(1, 1), (2, 1), (1, 2)], '(numel a, numel b)'),
+ _s('vecdot', 'h_vecdot', [(2, 2), (2, 1)], 'broadcast shape without its last axis'),
+ _s('trace', 'h_trace', [(2, None), (3, None)], 'shape[2:]'),
+ _s('dot', 'h_dotlike', [(2, 2), (2, 1)], 'a[:-1] + b[:-2] + b[-1:]'),
+ _s('inner', 'h_dotlike', [(2, 2), (2, 1)], 'a[:-1] + b[:-1]'),
+ _s('kron', 'h_kron', [(1, 1), (2, 2)], 'elementwise product of the shapes'),
+ _s('tensordot', 'h_tensordot', [(2, 2, {'AXES': 1}), (2, 2, {'AXES': 2})], 'a[:-N] + b[N:]', unwind=18),
+]
+OUTSIDE = [
+ 'ELEMENT level beyond the enumerated constant operand shapes (the property\'s "dim 1..4, extents 1..4 exhaustive" is reached for SHAPES only: index::shape_matmul fully symbolic)',
+ 'view::matmul (v1) with rank-1 operands: does not compile for fixed-dim operands (meta::range underflow in index::matmul); rank-1 promotion is only reachable through view::matmulv2',
+ 'view::matmulv2 elements: (2,)x(2,1) 380 s / 6.4 GB and (1,2)x(2,) 328 s / 4.2 GB return "holds" (thorough tier only, minisat; kissat out of memory at 11.5 GB, cadical no verdict in 600 s); '
+ '(1,2)x(2,1), (3,)x(3,2), (2,3)x(3,), (2,2)x(2,2): no verdict in 300-600 s / out of memory at 5.4 GB - not claimed',
+ 'vecdot (2,3)x(2,3): out of memory at 5.3 GB; dot, inner, tensordot(axes=1) on (2,2)x(2,2): no verdict in 300 s (quick budget) - attempted in the thorough tier only, not claimed unless they return',
+ 'tensordot with explicit axis pairs, kron of operands with different dims, trace with offset/other axes, dot/inner of n-d x m-d operands',
+ 'mismatching operand shapes (C15: view::matmul unwraps a Nothing shape - see C15 PENDING_FINDINGS)',
+ 'float accumulation order, SIMD matmul, shape helper functions of dot/inner/kron/tensordot in isolation (covered through the routines\' result shapes at the enumerated shapes)',
+]
+ASSUMPTIONS = ['uint8 element type: sums of products are compared modulo 256 (wrap-around), which identifies the set of summed products']
+CLAIM = dict(
+ text='index::shape_matmul equals NumPy\'s matmul shape rule (acceptance and result) for every pair of shapes of dim 1..4 with extents 1..4 (all batch-broadcast patterns, 1-d promotion on either side). '
+      'With symbolic extents 1..4 (operand dims enumerated: 1-d/2-d, trace 2-d/3-d) the result SHAPES of outer, vecdot, trace, dot, inner, kron and tensordot (axes 1 / 2) through the real view compositions equal NumPy\'s. '
+      'For the enumerated constant operand shapes, with all uint8 operand data and the output index symbolic, view::matmul, outer, trace, kron, vecdot, dot, inner and tensordot (axes 1 / 2) return NumPy\'s '
+      'result shape and the defining sum of products over exactly the contracted index range.',
+ note='Element level: per-query constant shapes (quick: matmul (1,3)x(3,1), (2,3)x(3,2), batch (2,1,2)x(2,2) and (1,2,2)x(2,2,1); outer (2)x(3), (2,2)x(2); trace (2,3), (2,2,2); kron (2)x(2), (2,1)x(1,2); vecdot/dot/inner (3)x(3); '
+      'tensordot (2)x(2) axes 1, (2,2)x(2,2) axes 2). Thorough adds all 2-d matmul pairs with extents <= 3, batch patterns, matmulv2 rank-1 promotion and the 2-d cases of vecdot/dot/inner/tensordot. '
+      'Trusted: clang-14 -O1 lowering, engine/ll2c.py, CBMC; validated per run by gate and witness assertions.')
